@@ -8,6 +8,7 @@ session-results / the reconstructed session_state are compared with what was
 there before (equality up to one JSON round trip: numeric dict keys may become
 strings).  Stepping must keep working after the restore, with and without a body."""
 import copy
+import os
 import json
 import random
 import tempfile
@@ -22,9 +23,9 @@ RULE = ("histories = start in {0,1,3,2.5} x dt in {1,.5,.25,.1} x 1-10 steps x p
         "distinct_nontrivial = distinct (start, dt, settings pattern, compress, path) combinations with at least 2 steps and at least one "
         "step carrying settings.")
 ASSUMPTIONS = ["equality up to one JSON round trip: numeric dict keys are compared as floats, tuples as lists", "the 'lock' flag is not part of the comparison (it is cleared on save by design)"]
-REQUIRED = {"twin_restores": 10, "rebegun_sessions": 10, "saves_while_absent": 10, "overwrites_of_existing_state_file": 5, "histories": 100, "restores": 100, "state_fields_compared": 500, "post_restore_steps": 100}
+REQUIRED = {"two_scenario_sessions": 10, "loads_over_live_instance": 10, "twin_restores": 10, "rebegun_sessions": 10, "saves_while_absent": 10, "overwrites_of_existing_state_file": 5, "histories": 100, "restores": 100, "state_fields_compared": 500, "post_restore_steps": 100}
 BUDGET_S = {"quick": 110, "thorough": 1500}
-PATHS = ["lazy", "save-load", "timeout", "new-server", "save-while-absent", "twin"]
+PATHS = ["lazy", "save-load", "timeout", "new-server", "save-while-absent", "twin", "replica", "rollback"]
 
 
 def gen_cases(tier, seed):
@@ -39,7 +40,7 @@ def gen_cases(tier, seed):
         if i % 3 == 2 and len(pattern) >= 3:
             # a second session begun on the live instance: only ITS logs may be in the state that is saved afterwards
             pattern.insert(rng.randint(1, len(pattern) - 1), "rebegin")
-        cases.append(dict(layer="rest", start=start, dt=dt, pattern=pattern, compress=bool(i % 2), path=PATHS[(i // 2) % 6], vseed=rng.randrange(10 ** 6)))
+        cases.append(dict(layer="rest", start=start, dt=dt, pattern=pattern, compress=bool(i % 2), path=PATHS[(i // 2) % 8], two=(i % 5 == 0), vseed=rng.randrange(10 ** 6)))
     # histories on which even the compressed format loses nothing (start=1, dt=1, the same constant on every step):
     # the compressed mode stays checkable there although its general lossiness is a known finding
     for i in range(24 if tier == "quick" else 400):
@@ -101,7 +102,7 @@ def first_diff(a, b, path=""):
     return None if a == b else "%s: %r vs %r" % (path, a, b)
 
 
-def settings_for(kind, rng):
+def _settings_for(kind, rng):
     from vlib.srv import MG, SC
     if kind == "const":
         return {MG: {SC: {"constants": {"rate": rng.choice([0.2, 0.6, 0.9]), "cap": rng.choice([20.0, 40.0])} if rng.random() < 0.4 else {"rate": rng.choice([0.2, 0.6, 0.9])}}}}
@@ -136,6 +137,15 @@ def run_rest(case, counters):
     tmp = tempfile.mkdtemp(prefix="c19_", dir=".")
     clock = srv.Clock()
     apps = []
+    scens = [srv.SC, "alt"] if case.get("two") else [srv.SC]
+    if case.get("two"):
+        counters["two_scenario_sessions"] = counters.get("two_scenario_sessions", 0) + 1
+
+    def settings_for(kind, rng):      # with two scenarios in the session, every non-empty settings object addresses both
+        st = _settings_for(kind, rng)
+        if case.get("two") and st:
+            st[srv.MG]["alt"] = _settings_for(kind, rng)[srv.MG][srv.SC]
+        return st
     try:
         with clock:
             factory = srv.bptk_factory(start=start, stop=stop, dt=dt)
@@ -144,13 +154,13 @@ def run_rest(case, counters):
             c = app.test_client()
             to = {"seconds": 50} if case["path"] == "timeout" else {"hours": 5}
             iid = json.loads(c.post("/start-instance", json={"timeout": to}).get_data(as_text=True))["instance_uuid"]
-            r = c.post("/%s/begin-session" % iid, json={"scenario_managers": [srv.MG], "scenarios": [srv.SC], "equations": list(srv.EQS)})
+            r = c.post("/%s/begin-session" % iid, json={"scenario_managers": [srv.MG], "scenarios": scens, "equations": list(srv.EQS)})
             nsteps_done = 0
             for k, kind in enumerate(case["pattern"]):
                 clock.advance(seconds=1)
                 nsteps_done += 1
                 if kind == "rebegin":
-                    r = c.post("/%s/begin-session" % iid, json={"scenario_managers": [srv.MG], "scenarios": [srv.SC], "equations": list(srv.EQS)})
+                    r = c.post("/%s/begin-session" % iid, json={"scenario_managers": [srv.MG], "scenarios": scens, "equations": list(srv.EQS)})
                     nsteps_done = 0
                     counters["rebegun_sessions"] = counters.get("rebegun_sessions", 0) + 1
                     if r.status_code != 200:
@@ -187,7 +197,7 @@ def run_rest(case, counters):
                 # the absent instance must still be restorable afterwards
                 app._instance_manager._delete_instance(iid)
                 other = json.loads(c.post("/start-instance", json={"timeout": {"hours": 5}}).get_data(as_text=True))["instance_uuid"]
-                c.post("/%s/begin-session" % other, json={"scenario_managers": [srv.MG], "scenarios": [srv.SC], "equations": list(srv.EQS)})
+                c.post("/%s/begin-session" % other, json={"scenario_managers": [srv.MG], "scenarios": scens, "equations": list(srv.EQS)})
                 c.post("/%s/run-step" % other, json={"settings": {}})
                 r = c.get("/save-state")
                 if r.status_code != 200:
@@ -198,10 +208,10 @@ def run_rest(case, counters):
                 # further step; the first instance must still come back as it was saved
                 rng2 = random.Random(case["vseed"])
                 twin = json.loads(c.post("/start-instance", json={"timeout": {"hours": 5}}).get_data(as_text=True))["instance_uuid"]
-                c.post("/%s/begin-session" % twin, json={"scenario_managers": [srv.MG], "scenarios": [srv.SC], "equations": list(srv.EQS)})
+                c.post("/%s/begin-session" % twin, json={"scenario_managers": [srv.MG], "scenarios": scens, "equations": list(srv.EQS)})
                 for kind in case["pattern"]:
                     if kind == "rebegin":
-                        c.post("/%s/begin-session" % twin, json={"scenario_managers": [srv.MG], "scenarios": [srv.SC], "equations": list(srv.EQS)})
+                        c.post("/%s/begin-session" % twin, json={"scenario_managers": [srv.MG], "scenarios": scens, "equations": list(srv.EQS)})
                     elif kind.startswith("steps"):
                         st = settings_for({"const": "const", "empty": "empty", "points": "points"}[kind[6:]], rng2)
                         c.post("/%s/run-steps" % twin, json={"numberSteps": int(kind[5]), "settings": st})
@@ -216,6 +226,49 @@ def run_rest(case, counters):
                 c.post("/%s/run-step" % twin, json={"settings": {}})   # ... and the twin moves on
                 app._instance_manager._delete_instance(iid)            # the first one is restored once more from its file
                 counters["twin_restores"] = counters.get("twin_restores", 0) + 1
+            elif path == "replica":
+                # a second server on the same directory loads the whole state, the first server moves on (and saves), the second
+                # loads again: what it serves afterwards must be what was saved last, not what it still had in memory
+                app2 = srv.make_server(factory, state_dir=tmp, compress=case["compress"])
+                apps.append(app2)
+                c2 = app2.test_client()
+                r = c2.post("/load-state")
+                if r.status_code != 200 or c2.get("/%s/session-results" % iid).status_code != 200:
+                    return dict(kind="load-state-failed", status=r.status_code, body=r.get_data(as_text=True)[:200])
+                for st in (settings_for("constR", rng), settings_for("constR", rng)):
+                    r = c.post("/%s/run-step" % iid, json={"settings": st})
+                    nsteps_done += 1
+                    if r.status_code != 200:
+                        return dict(kind="run-step-failed-with-adapter", step="replica", status=r.status_code, body=r.get_data(as_text=True)[:200])
+                before_results = json.loads(c.get("/%s/session-results" % iid).get_data(as_text=True))
+                before_flat = json.loads(c.get("/%s/flat-session-results" % iid).get_data(as_text=True))
+                before_state = copy.deepcopy(app._instance_manager._instances[iid]["instance"].session_state)
+                r = c2.post("/load-state")
+                if r.status_code != 200:
+                    return dict(kind="load-state-failed", status=r.status_code, body=r.get_data(as_text=True)[:200])
+                app, c = app2, c2
+                counters["loads_over_live_instance"] = counters.get("loads_over_live_instance", 0) + 1
+            elif path == "rollback":
+                # whole-server save, the directory is copied (a checkpoint), the session moves on, the checkpoint is put back and loaded:
+                # the server must be back at the checkpoint
+                import shutil as _sh
+                r = c.get("/save-state")
+                if r.status_code != 200:
+                    return dict(kind="save-state-failed", status=r.status_code, body=r.get_data(as_text=True)[:200])
+                ck = tmp + "_ck"
+                _sh.copytree(tmp, ck)
+                try:
+                    r = c.post("/%s/run-steps" % iid, json={"numberSteps": 3, "settings": settings_for("constR", rng)})
+                    if r.status_code != 200:
+                        return dict(kind="run-step-failed-with-adapter", step="rollback", status=r.status_code, body=r.get_data(as_text=True)[:200])
+                    for fn in os.listdir(ck):
+                        _sh.copyfile(os.path.join(ck, fn), os.path.join(tmp, fn))
+                finally:
+                    _sh.rmtree(ck, ignore_errors=True)
+                r = c.post("/load-state")
+                if r.status_code != 200:
+                    return dict(kind="load-state-failed", status=r.status_code, body=r.get_data(as_text=True)[:200])
+                counters["loads_over_live_instance"] = counters.get("loads_over_live_instance", 0) + 1
             elif path == "timeout":
                 clock.advance(seconds=60)
                 c.get("/metrics")
@@ -273,7 +326,7 @@ def run_adapter(case, counters):
     try:
         b.begin_session(scenarios=[srv.SC], scenario_managers=[srv.MG], equations=list(srv.EQS), starttime=start, dt=dt)
         for kind in case["pattern"]:
-            st = settings_for(kind, rng)
+            st = _settings_for(kind, rng)
             b.run_step(settings=st) if st is not None else b.run_step()
         counters["histories"] = counters.get("histories", 0) + 1
         before = copy.deepcopy(b.session_state)
